@@ -25,7 +25,7 @@ RULE = ("emission contract evaluated on the real active_edges_single_cycle / act
         "7x5 / 9x6, frames up to 3x3 / 4x3) with structured assignments needing deep rank certificates (all-active paths, snakes, "
         "border-rooted zig-zag diagonal chains, perimeter loops) and their single-variable mutations; every explicit graph also with edges handed to add_edge in the other orientation / mixed / with the Graph object USED once when half built ('grown'); plus history sequences (all "
         "instances again in one process, forwards/backwards, each grid followed by its transpose); distinct = distinct instances")
-TECHNIQUE = ("pyvc (proved, all sizes): Graph.add_edge, _from_grid_frame (edge list aligned with the lattice graph), native connectivity operand layout (line-graph route); the encoder itself: bounded stand-in for a contract on the real emitter (precondition / postcondition against a graph "
+TECHNIQUE = ("pyvc (proved, all sizes): Graph.add_edge, _from_grid_frame (edge list aligned with the lattice graph), Graph.line_graph (sound and complete), native connectivity operand layout (line-graph route); the encoder itself: bounded stand-in for a contract on the real emitter (precondition / postcondition against a graph "
              "predicate / frame), decided exhaustively inside the stated scope with z3 over the reference semantics "
              "specs/den.py; never counted as proved")
 LEVEL_TEXT = ("exploration: the integer/list plumbing around the encoder is proved by pyvc (see technique); the encoder (bounded-exhaustive): the encoder's contract quantifies over all graphs and needs an induction "
